@@ -444,12 +444,18 @@ pub mod quarantine {
         ON.with(|on| on.set(true));
     }
 
-    /// Stop holding and give everything back.
-    pub fn release() {
+    /// Stop holding and give everything back; returns how many blocks had been freed more than once
+    /// (each is given back once).
+    pub fn release() -> usize {
         ON.with(|on| on.set(false));
-        let held = HELD.with(|h| unsafe { std::mem::take(&mut *h.0.get()) });
+        let mut held = HELD.with(|h| unsafe { std::mem::take(&mut *h.0.get()) });
+        held.sort_unstable();
+        let before = held.len();
+        held.dedup_by_key(|x| x.0);
+        let dups = before - held.len();
         for (p, size, align) in held {
             unsafe { System.dealloc(p as *mut u8, Layout::from_size_align_unchecked(size, align)) };
         }
+        dups
     }
 }
